@@ -46,6 +46,26 @@ CHECKS = {
         note="Trusted: Lean kernel + [propext, Classical.choice, Quot.sound]; hand-written Model/Loader.lean tied by correspondence; sanitizers as the oracle for the un-modelled part (finite exploration, labelled as such).",
         technique="Lean 4 totality theorems for modelled loader components + differential execution + sanitizer-instrumented loading of mutated and structurally hostile fonts through both table sources",
         ref="§6 C01"),
+    "C08": dict(
+        text="Proof (Lean 4 kernel), partial: the one piece of face state that shaping writes - the lazily filled glyph cache - is history-independent: glyph_cache_history_independent (after ANY sequence of earlier requests a request returns what the immutable tables say, the same as on a preloaded face); the pass-engine model (tied to the code by the C06 correspondence) is a function of font tables and text by construction. The property as a whole is decided on the implementation by randomised API histories: a probe segment made before and after arbitrary other calls (other segments in all directions, line breaks, justification, feature values, label queries, second fonts, destructions; lazy and preloaded faces; file and callback sources) must dump identically and the face must answer its queries identically.",
+        note="Trusted: Lean kernel + [propext, Quot.sound]; hand-written Model/Borrow.lean (glyph cache) tied to the code only through end-to-end dumps; the history predicate is a finite exploration.",
+        technique="Lean 4 theorem on a glyph-cache model + randomised API histories with identical-dump comparison",
+        ref="§6 C08/C10"),
+    "C09": dict(
+        text="Proof (Lean 4 kernel) for the mechanism, exploration for the interleavings: preloaded_cache_is_read_only - on a preloaded face a glyph request never writes the cache; concurrent_answers_are_sequential_answers - any list of other requests leaves every answer unchanged. That the real library performs no other shared write and calls no table callback is sampled, not proved: N threads (2..16) shape on one shared cold preloadAll face under ThreadSanitizer and AddressSanitizer, every thread's segments are compared with the single-threaded ones on the same and on a fresh face, and late table callbacks are counted. The detector is validated on every run against the known race of a lazily loading face (outside the property).",
+        note="Trusted: Lean kernel + [propext, Quot.sound]; ThreadSanitizer over a finite sample of schedules - for the interleavings this is exploration, stated as such.",
+        technique="Lean 4 read-only theorem on a glyph-cache model + ThreadSanitizer runs of concurrent shapers compared with single-threaded results",
+        ref="§6 C09"),
+    "C10": dict(
+        text="Proof (Lean 4 kernel), partial: preload_eq_lazy - on fonts all of whose glyphs are readable the preloaded and the lazy glyph cache hand out the same glyphs after any history; preload_fails_iff_some_glyph_unreadable; the cached and the direct cmap lookup are modelled and compared exhaustively per table in C13. The property as a whole is decided on the implementation: every shipped and synthesised font x texts x directions under all 8 option values x {file, callbacks} must report identical face information (glyph count, features, values, labels, languages, character support) and produce identical segments (design units and scaled).",
+        note="Trusted: Lean kernel + [propext, Classical.choice, Quot.sound]; the option matrix is a finite exploration over fonts and texts.",
+        technique="Lean 4 theorems on a glyph-cache model + full option/source matrix with identical-dump comparison",
+        ref="§6 C08/C10"),
+    "C16": dict(
+        text="Proof (Lean 4 kernel), partial: table_life_disciplined - one Face::Table object, however it came into being (absent, failing CheckTable, plain, compressed with any decoder outcome) and however often it is re-assigned from fresh tables, has by its destruction released every pointer obtained from get_table exactly once (never twice, never one not outstanding) and freed every buffer it allocated exactly once. The model is tied to the code by comparing event traces of the real Face::Table over a lending callback. Which tables a face requests and when, use after release, leaks and the preloadAll 'no late get_table' clause are decided on the implementation: every get_table hands out a fresh heap copy that release_table frees (a later access is an ASan use-after-free), randomised create/shape/query/destroy histories on well-formed and byte-mutated fonts, traffic balance, LeakSanitizer.",
+        note="Trusted: Lean kernel + [propext, Classical.choice, Quot.sound]; hand-written Model/Borrow.lean tied by trace correspondence; ASan/LSan as the oracle for the un-modelled part.",
+        technique="Lean 4 protocol theorem (borrow discipline of Face::Table) + trace correspondence + lending-callback histories under ASan/LSan",
+        ref="§6 C16"),
     "C11": dict(
         text="Proof (Lean 4 kernel), for all code-unit strings in all three encodings: gr_count_unicode_characters' model never faults on [begin,end) and equals the Unicode specification's scan (Table 3-7/D91/D90) - exact count without error on well-formed text, error reported on ill-formed text, error pointer inside the buffer, count <= well-formed characters before the first ill-formed sequence; NUL-terminated branch never reads past a NUL; get/put inverse on all scalar values; ill-formed sequences swallow only trailing units (resync); the three encodings of a scalar list read back as the same scalars. Decoder tables, limits and toolong thresholds are REGENERATED from UtfCodec.h/.cpp. Model tied to the code by differential execution under ASan: every UTF-8 string of <=3 bytes (exhaustive, 16.8M), boundary-structured longer strings, UTF-16/32 boundary products, gr_make_seg char-infos.",
         note="Trusted: Lean kernel + [propext, Classical.choice, Quot.sound]; extractor for Gen.Utf; hand-written Model/Utf.lean tied by finite differential runs; Spec/Utf.lean validated against Python's strict codecs through the predicate on implementation outputs. Whole-segment equality across encodings is reduced to equality of the decoded scalar list.",
